@@ -1558,7 +1558,9 @@ impl<T: PackedInt> IntVec<T> {
         let bits_needed = bit_in_byte + bits as usize;
         let bytes_needed = (bits_needed + 7) / 8;
 
-        if byte_offset + bytes_needed <= data.len() && bytes_needed <= 8 {
+        // The fast path loads and stores a whole 8-byte word at byte_offset, so all 8 bytes
+        // (not only the bytes_needed touched by this field) must lie inside the buffer.
+        if byte_offset + 8 <= data.len() && bytes_needed <= 8 {
             // Fast unaligned write using hardware acceleration
             let data_ptr = unsafe { data.as_mut_ptr().add(byte_offset) };
             let current = unsafe { UnalignedOps::read_u64_unaligned(data_ptr) };
